@@ -442,6 +442,10 @@ class REPEX_state:
         if not self.cstep < self.tsteps:
             return False
 
+        # never start more jobs than there are steps left
+        if 0 < self.toinitiate <= self.workers - (self.tsteps - self.cstep):
+            self.toinitiate = 0
+
         self.cworker = self.workers - self.toinitiate
 
         if self.toinitiate == self.workers:
